@@ -87,7 +87,7 @@ theorem C02_network_decision_is_the_message (cfg : Cfg) (c : Ctrl) (m d : Msg) (
 /-- When the controller reports a decision it reached itself (first report of an undecided instance), the certificate is for
     the proposal the instance had accepted: same value and root, the value passed the operator's own value check, the
     proposal was signed by exactly the leader of its round (`cfg.proposer`), and its round is the round of the commits. -/
-theorem C02_local_decision_is_for_the_leaders_checked_proposal (cfg : Cfg) (c : Ctrl) (hc : CtrlInv cfg c) (m d : Msg)
+theorem C02_local_decision_for_leaders_proposal (cfg : Cfg) (c : Ctrl) (hc : CtrlInv cfg c) (m d : Msg)
     (hnd : isDecidedMsg cfg m = false) (h : (c.processMsg cfg m).res = .ok (some d)) :
     ValidCert cfg d ∧
     ∃ inst p, findInstance c.insts m.height = some inst ∧ inst.decided = false ∧ inst.accepted = some p ∧
